@@ -60,6 +60,10 @@ func realToken(name string) *token.Token {
 		return &token.Token{Type: token.MIT, Literal: "mit"}
 	case "int1":
 		return &token.Token{Type: token.INT, Literal: "1"}
+	case "nicht":
+		return &token.Token{Type: token.NICHT, Literal: "nicht"}
+	case "pBy":
+		return par(ddptypes.BYTE, false)
 	case "pZ":
 		return par(ddptypes.ZAHL, false)
 	case "pT":
